@@ -1071,7 +1071,7 @@ struct Explorer {
             const Stmt& ps = v->stmts[px->second];
             if (!Runs(px->second)) continue;
             bool rewrote = true;
-            if (ps.restat) {
+            if (ps.restat || (ps.spec.restat && !ps.dyndep.empty())) {   // declared, or supplied by the statement's dyndep file
               const vfs::File* old = cur.Get(x);
               rewrote = !old || old->data != ex.Content(x);
             }
@@ -1122,6 +1122,11 @@ struct Explorer {
       if (p != v->producer.end()) {
         x.facts.set("restat", v->stmts[p->second].restat);
         x.facts.set("generator", v->stmts[p->second].generator);
+        // the statement is a restat statement only by dyndep information, and that file is re-made in this very build:
+        // the plan was drawn up before anything said restat
+        const Stmt& ps = v->stmts[p->second];
+        x.facts.set("restat_supplied_by_a_dyndep_file_made_in_this_build",
+                    !ps.restat && ps.spec.restat && !ps.dyndep.empty() && Started(r, ps.dyndep));
       }
       {
         // ... the statement itself, or one upstream of it that therefore runs now and rewrites what this one reads
